@@ -187,13 +187,23 @@ WCAll(st, ns, vs) ==
   IF Len(ns) <= MaxMembers THEN WCOne(st, ns, vs)
   ELSE WCAll(WCOne(st, SubSeq(ns, 1, MaxMembers), SubSeq(vs, 1, MaxMembers)),
              SubSeq(ns, MaxMembers + 1, Len(ns)), SubSeq(vs, MaxMembers + 1, Len(vs)))
+\* A list that names a number twice, or a number that is in use, is refused
+\* before anything is recorded: the call changes nothing (as for the argument
+\* errors below).  Otherwise the allocation counter is first moved past the
+\* largest number of the list, so that the containers get numbers of their own.
 WriteCompressed(ns, vs) ==
   /\ mode = "idle" /\ Step
   /\ IF Len(ns) = 0
      THEN lastErr' = "" /\ UNCHANGED <<mode, xref, nextRef, pos, emitted, written>>
-     ELSE LET st1 == IF ~OBJSTM THEN PutAll(St, [i \in 1..Len(ns) |-> <<ns[i], 0, vs[i], "plain">>])
-                     ELSE WCAll(St, ns, vs)
-          IN /\ Commit(st1) /\ mode' = IF st1.err = "" THEN "idle" ELSE "failed"
+     ELSE LET nset == {ns[i] : i \in 1..Len(ns)}
+              refused == Cardinality(nset) # Len(ns) \/ \E n \in nset : xref[n] # NONE
+              top == CHOOSE m \in nset : \A k \in nset : k <= m
+              st0 == [St EXCEPT !.nextRef = Max(nextRef, top + 1)]
+              st1 == IF ~OBJSTM THEN PutAll(st0, [i \in 1..Len(ns) |-> <<ns[i], 0, vs[i], "plain">>])
+                     ELSE WCAll(st0, ns, vs)
+          IN IF refused
+             THEN lastErr' = "duplicate" /\ UNCHANGED <<mode, xref, nextRef, pos, emitted, written>>
+             ELSE /\ Commit(st1) /\ mode' = IF st1.err = "" THEN "idle" ELSE "failed"
   /\ UNCHANGED <<deferred, cur, trailer>>
 \* argument errors of WriteCompressed (checkCompressed) change nothing
 WriteCompressedBad(why) ==
